@@ -385,6 +385,65 @@ fn run_language(bytes: &[u8]) -> Result<usize, (String, String)> {
     Ok(churn)
 }
 
+/// The texts of numbers, converted in an order the case chooses (with repeats): each conversion gives
+/// the text of *that* number whatever was converted before - `0` after `-0`, 256 after 0, 1 after
+/// NaN - by String.from, by an interpolation consisting of the number and by one with text around it;
+/// the texts select map entries and compare with literals by their bytes.
+fn number_texts_case(bytes: &[u8]) -> (String, Vec<String>) {
+    const NUMS: &[(&str, f64)] = &[
+        ("0", 0.0), ("(0 * -1)", -0.0), ("1", 1.0), ("-1", -1.0), ("2", 2.0), ("10", 10.0), ("255", 255.0), ("256", 256.0), ("257", 257.0),
+        ("0.5", 0.5), ("-0.5", -0.5), ("100", 100.0), ("1000000", 1000000.0), ("(0 / 0)", f64::NAN), ("(1 / 0)", f64::INFINITY), ("(-1 / 0)", f64::NEG_INFINITY),
+        ("512", 512.0), ("65536", 65536.0), ("(3 - 3)", 0.0), ("(-0.25 * 0)", -0.0), ("1.5", 1.5), ("4294967296", 4294967296.0),
+    ];
+    let mut rd = Rd::new(bytes, 200);
+    let n = 4 + rd.below(20);
+    let mut src = String::from("var table = {\"0\": \"zero\", \"-0\": \"negative zero\", \"1\": \"one\", \"256\": \"two five six\"};\n");
+    let mut want = Vec::new();
+    for k in 0..n {
+        // zeros of both signs meet often
+        let i = if rd.chance(1, 3) { [0usize, 1, 18, 19][rd.below(4)] } else { rd.below(NUMS.len()) };
+        let (e, v) = NUMS[i];
+        let d = crate::rv::num_display(v);
+        match rd.below(4) {
+            0 => {
+                src.push_str(&format!("var s{k} = String.from({e});\nprint(s{k});\nprint(s{k} == \"{d}\");\nprint(table.get(s{k}));\n", k = k, e = e, d = d));
+                want.push(d.clone());
+                want.push("true".to_string());
+                want.push(match d.as_str() { "0" => "zero", "-0" => "negative zero", "1" => "one", "256" => "two five six", _ => "nil" }.to_string());
+            }
+            1 => {
+                src.push_str(&format!("print(\"${{{}}}\");\n", e));
+                want.push(d.clone());
+            }
+            2 => {
+                src.push_str(&format!("print(\"<${{{}}}|${{{}}}>\");\n", e, e));
+                want.push(format!("<{}|{}>", d, d));
+            }
+            _ => {
+                src.push_str(&format!("print(String.from({}).len());\n", e));
+                want.push(d.len().to_string());
+            }
+        }
+    }
+    (src, want)
+}
+
+fn run_number_texts(bytes: &[u8]) -> Result<usize, (String, String)> {
+    let (src, want) = number_texts_case(bytes);
+    let o = crate::yrun::run_source(&src, &RunCfg::default());
+    if let End::Panic(p) = &o.end {
+        return Err((format!("panic:{}", crate::props::c03::sig_of_panic(p)), format!("yarel panicked: {}\n{}", p, src)));
+    }
+    if !matches!(o.end, End::Ok(_)) || o.out != want {
+        let at = o.out.iter().zip(want.iter()).position(|(a, b)| a != b).unwrap_or(o.out.len().min(want.len()));
+        return Err((
+            "number-text-depends-on-history".into(),
+            format!("line {} of the output is {:?}, the number's text is {:?} (end {:?})\n{}", at + 1, o.out.get(at), want.get(at), o.end, src),
+        ));
+    }
+    Ok(want.len())
+}
+
 fn table_ops(family: &str, bytes: &[u8]) -> (Vec<(usize, bool)>, HashFn) {
     match family {
         "table_exhaustive" => {
@@ -448,11 +507,12 @@ impl Property for C11 {
             Family { name: "table_random", kind: FamilyKind::Random { cases: if q { 2_500 } else { 60_000 }, max_len: 64 } },
             Family { name: "api", kind: FamilyKind::Random { cases: if q { 400 } else { 8_000 }, max_len: 64 } },
             Family { name: "language", kind: FamilyKind::Random { cases: if q { 1_500 } else { 30_000 }, max_len: 16 } },
+            Family { name: "number_texts", kind: FamilyKind::Random { cases: if q { 3_000 } else { 60_000 }, max_len: 40 } },
         ]
     }
 
     fn rule(&self) -> String {
-        "cases: (table_exhaustive) every history of up to 6 intern/lookup operations over 4 texts under 3 hash functions (all texts one hash; shared low bits; the real hash) — thorough enumerates all of them, quick those whose last two operations are the simplest; (table_random) histories of up to 3x each growth point (4..4096 slots) on the interpreter's own intern-table type driven through a hook with harness-chosen hash functions: identical full hashes, identical low k bits (long probe chains, wrap-around), low bits that place every text within 2-91 slots of the end of the table or in two clusters there (dense runs wrapping around the end, re-inserted by the next growth), real hashes with the low 12 bits cleared, hashes whose low 8-48 bits are all zero, real hashes; (api) 200-3200 calls of Vm::new_gc_obj_string over multi-byte texts, revisits, and texts found by search to collide in the low 12 bits of the real hash; (language) the same contents (3-4100 bytes, lengths around multiples of 8, beyond 32, and around 256, 1024 and 4096) built by two of 16 routes (literal, escapes, +, interpolation, slices and split pieces that start at every byte offset 0-7 inside their source string, replace, String.from, from_utf8, from_code_points, from_ascii, iteration; a quarter of the cases use the text of a number, boolean or nil produced by String.from, by an interpolation consisting of that one expression, nested or inside a lambda, by concatenation, slicing or written out) with 50-3000 strings of churn in between and a one-byte near miss, compared with ==, used as map keys alone and inside tuples, names (global, method, field, module attribute) resolved across separately compiled snippets on one interpreter, and the messages of two caught built-in errors (equal exactly when their bytes are, as values and as map keys); (api) additionally holds 1-40 strings as roots across Vm::reset() and requires the same bytes built afterwards to be the very objects held. Oracle: intern-set model keyed by (hash, bytes): same key <=> same entry, new key <=> new distinct entry, every entry still found after every growth; pointer identity <=> byte equality at the API; outputs known by construction at language level. Non-trivial: the history crosses a growth with a collision chain of >=3 entries, or any api/language case; distinct by the case bytes.".into()
+        "cases: (table_exhaustive) every history of up to 6 intern/lookup operations over 4 texts under 3 hash functions (all texts one hash; shared low bits; the real hash) — thorough enumerates all of them, quick those whose last two operations are the simplest; (table_random) histories of up to 3x each growth point (4..4096 slots) on the interpreter's own intern-table type driven through a hook with harness-chosen hash functions: identical full hashes, identical low k bits (long probe chains, wrap-around), low bits that place every text within 2-91 slots of the end of the table or in two clusters there (dense runs wrapping around the end, re-inserted by the next growth), real hashes with the low 12 bits cleared, hashes whose low 8-48 bits are all zero, real hashes; (api) 200-3200 calls of Vm::new_gc_obj_string over multi-byte texts, revisits, and texts found by search to collide in the low 12 bits of the real hash; (language) the same contents (3-4100 bytes, lengths around multiples of 8, beyond 32, and around 256, 1024 and 4096) built by two of 16 routes (literal, escapes, +, interpolation, slices and split pieces that start at every byte offset 0-7 inside their source string, replace, String.from, from_utf8, from_code_points, from_ascii, iteration; a quarter of the cases use the text of a number, boolean or nil produced by String.from, by an interpolation consisting of that one expression, nested or inside a lambda, by concatenation, slicing or written out) with 50-3000 strings of churn in between and a one-byte near miss, compared with ==, used as map keys alone and inside tuples, names (global, method, field, module attribute) resolved across separately compiled snippets on one interpreter, and the messages of two caught built-in errors (equal exactly when their bytes are, as values and as map keys); (api) additionally holds 1-40 strings as roots across Vm::reset() and requires the same bytes built afterwards to be the very objects held. (number_texts) 4-23 conversions of numbers to text in an order the case chooses, with repeats - zeros of both signs written several ways, 1, -1, 255, 256, 257, 512, 65536, 2^32, fractions, NaN, infinities - by String.from (compared with the literal, used as a map key, measured) and by interpolations with and without text around the number; each must give that number's text whatever was converted before. Oracle: intern-set model keyed by (hash, bytes): same key <=> same entry, new key <=> new distinct entry, every entry still found after every growth; pointer identity <=> byte equality at the API; outputs known by construction at language level. Non-trivial: the history crosses a growth with a collision chain of >=3 entries, or any api/language case; distinct by the case bytes.".into()
     }
 
     fn render(&self, family: &str, bytes: &[u8]) -> String {
@@ -461,6 +521,7 @@ impl Property for C11 {
                 let (ops, f) = table_ops(family, bytes);
                 format!("{:?}, {} operations: {:?}…", f, ops.len(), &ops[..ops.len().min(16)])
             }
+            "number_texts" => number_texts_case(bytes).0,
             _ => format!("{} case {}", family, hex(&bytes[..bytes.len().min(16)])),
         }
     }
@@ -497,6 +558,13 @@ impl Property for C11 {
                 }
                 Err((sig, detail)) => Verdict::Fail { sig, detail },
             },
+            "number_texts" => match run_number_texts(&bytes) {
+                Ok(n) => {
+                    ctx.label_n("number_texts", n as u64);
+                    Verdict::Pass { nontrivial: true, hash: fnv64(&bytes) }
+                }
+                Err((sig, detail)) => Verdict::Fail { sig, detail },
+            },
             _ => match run_language(&bytes) {
                 Ok(churn) => {
                     ctx.label_n("language_churn", churn as u64);
@@ -508,6 +576,6 @@ impl Property for C11 {
     }
 
     fn floors(&self, _tier: Tier) -> Vec<(&'static str, u64)> {
-        vec![("table_ops", 500_000), ("growths", 5_000), ("chain>=3", 1_000), ("api_strings", 100_000), ("language_churn", 100_000)]
+        vec![("table_ops", 500_000), ("growths", 5_000), ("chain>=3", 1_000), ("api_strings", 100_000), ("language_churn", 100_000), ("number_texts", 20_000)]
     }
 }
